@@ -411,3 +411,21 @@ pub(crate) fn required_flags_filter(required: Flags, t: Flags) -> bool {
         t.contains(required)
     }
 }
+
+#[cfg(ckb_verif)]
+impl PeerStore {
+    /// verif hook: public entry to the crate-private `ban_addr`
+    pub fn verif_ban_addr(&mut self, addr: &Multiaddr, timeout_ms: u64, ban_reason: String) {
+        self.ban_addr(addr, timeout_ms, ban_reason)
+    }
+
+    /// verif hook: public entry to the crate-private `ban_network`
+    pub fn verif_ban_network(&mut self, network: IpNetwork, timeout_ms: u64, ban_reason: String) {
+        self.ban_network(network, timeout_ms, ban_reason)
+    }
+
+    /// verif hook: the address-count limit above which `add_addr` purges
+    pub fn verif_addr_count_limit() -> usize {
+        ADDR_COUNT_LIMIT
+    }
+}
